@@ -203,9 +203,20 @@ def _avp_off(ex, st, b, n):
     return VInt(_ufun(ex, "avp_off", ["(Seq Int)", INT], INT, ex.unwrap(b).t, ex.num(n)))
 
 
+@R.specfn("wf_upto")
+def _wf_upto(ex, st, b, n):
+    """the first n top-level AVPs of message buffer b are well-formed (wf_avp_at at their offsets): wf_upto(b, 0) = True,
+    wf_upto(b, n+1) = wf_upto(b, n) and wf_avp_at(b, avp_off(b, n)); the two equations are instantiated as hints"""
+    from pyvc.models import _ufun
+    return VBool(_ufun(ex, "wf_upto", ["(Seq Int)", INT], "Bool", ex.unwrap(b).t, ex.num(n)))
+
+
 R.contract("Message.from_bytes", params={"msg_data": "bytes", "plain_msg": "bool"}, returns="Message",
            ghost={"j": "int"},
-           ensures=[("avp-sequence-identical-to-the-wire",
+           ensures=[("each-well-formed-avp-re-encodes-to-its-own-bytes",
+                     "implies(is_generic_msg(result) and 0 <= j < len(result._avps) and wf_at(msg_data, avp_off(msg_data, j)), "
+                     "avp_bytes_at(result._avps[j], msg_data, avp_off(msg_data, j), avp_off(msg_data, j + 1)))"),
+                    ("avp-sequence-identical-to-the-wire",
                      "implies(is_generic_msg(result) and 0 <= j < len(result._avps), "
                      "avp_at(result._avps[j], msg_data, avp_off(msg_data, j)))"),
                     ("every-byte-belongs-to-a-decoded-avp",
@@ -227,9 +238,14 @@ R.loop("Message.from_bytes", 0,
                    ("buffer-fixed", "ubuf(unpacker) == msg_data"),
                    ("position-is-the-next-avp-offset", "upos(unpacker) == avp_off(msg_data, len(avps))"),
                    ("decoded-so-far-identical-to-the-wire",
-                    "implies(0 <= j < len(avps), avp_at(avps[j], msg_data, avp_off(msg_data, j)))")],
+                    "implies(0 <= j < len(avps), avp_at(avps[j], msg_data, avp_off(msg_data, j)))"),
+                   ("decoded-so-far-re-encodes-member-by-member",
+                    "implies(0 <= j < len(avps) and wf_at(msg_data, avp_off(msg_data, j)), "
+                    "avp_bytes_at(avps[j], msg_data, avp_off(msg_data, j), avp_off(msg_data, j + 1)))")],
+                   # appended below: the re-encoding invariant
        hints=["avp_off(msg_data, 0) == 20",
-              "avp_off(msg_data, len(avps) + 1) == d_end(msg_data, avp_off(msg_data, len(avps)))"],
+              "avp_off(msg_data, len(avps) + 1) == d_end(msg_data, avp_off(msg_data, len(avps)))",
+              ],
        decreases="len(ubuf(unpacker)) - upos(unpacker)",
        modifies=["unpacker._Unpacker__pos", "list:avps"])
 
@@ -368,3 +384,25 @@ R.contract("Message.find_avps", params={"self": "Message!", "code_and_vendor": "
            note="for the generic Message class (avps is the stored list); alt_list searches share the cache keys of the "
                 "message's own searches (see DESIGN section 7: outside the property's quantifier) and are excluded")
 R.assume("T-fmt: the find_avps cache key is an injective function of the (code, vendor) path (decimal renderings joined by '_' and '/')")
+
+# ---- composition: the decoded AVP list of a well-formed message re-encodes to the body bytes ------------------------
+R.lemma_ob("decoded-list-re-encodes-step", vars={"s": "Seq[Avp]", "x": "Avp", "b": "bytes", "p": "int", "q": "int"},
+           assumes=[("induction-hypothesis", "wires(s) == b[20:p]"),
+                    ("next-member-re-encodes-to-its-bytes", "avp_bytes_at(x, b, p, q)"),
+                    ("offsets-ordered", "20 <= p and p <= q and q <= len(b)")],
+           hints=["wires_snoc(s, x)", "avp_bytes_at_def(x, b, p, q)"],
+           shows=[("prefix-extended", "wires(s + [x]) == b[20:q]")],
+           props=["C02"],
+           note="induction step over the decoded list: with Message.from_bytes' member-wise clause (p = avp_off(b, n), "
+                "q = avp_off(b, n+1)) and the base case wires([]) = b[20:20] this gives wires(avps) = b[20:] for a message "
+                "whose AVPs are all well-formed; the induction itself (over n) is the explicit schema, not mechanised")
+R.lemma_ob("message-re-encodes", vars={"b": "bytes", "w": "bytes"},
+           assumes=[("body", "w == b[20:]"), ("header-present", "len(b) >= 20 and len(b) < 2**24"),
+                    ("length-field-is-the-total-length", "u32(b[0:4]) % 2**24 == len(b)")],
+           shows=[("bytes-reproduced",
+                   "hdr_wire(u32(b[0:4]) // 2**24, 20 + len(w), u32(b[4:8]) // 2**24, u32(b[4:8]) % 2**24, "
+                   "u32(b[8:12]), u32(b[12:16]), u32(b[16:20])) + w == b")],
+           props=["C02"],
+           note="frame level: Message.as_bytes (= hdr_wire(fields, 20 + |body|) ++ wires(avps)) applied to the header fields "
+                "that Message.from_bytes decodes and to a body that re-encodes to b[20:] gives b again, provided the length "
+                "field of b is its total length")
